@@ -11,9 +11,29 @@ from harness.engine import tlc as T
 from harness.engine.core import chunks
 
 SPEC = os.path.join(T.SPECS, "Styles")
-GLYPH = {"─": "H", "│": "V", "┼": "X"}
-OWN = ["padding_char", "cell_format"]
-BORDER = ["line_ht_char", "line_hc_char", "line_vc_char", "crossing_c_char"]
+GLYPH = {"─": "H", "│": "V", "┌": "A", "┐": "B", "└": "C", "┘": "D", "┼": "X", "├": "L", "┬": "T", "┤": "R", "┴": "U"}
+OWN = ["padding_char", "cell_format", "header_cell_format", "cell_style", "header_cell_style"]
+STYLED = ["cell_style", "header_cell_style", "style"]  # attributes holding a formatter Style (or None)
+BORDER = ["line_ht_char", "line_hc_char", "line_hb_char", "line_vl_char", "line_vc_char", "line_vr_char",
+          "corner_tl_char", "corner_tr_char", "corner_bl_char", "corner_br_char",
+          "crossing_c_char", "crossing_l_char", "crossing_t_char", "crossing_r_char", "crossing_b_char", "style"]
+ALIGN_OPS = ["set_column_alignment", "column_alignments", "default_column_alignment"]
+ANSI_IO = {"utf8": True, "ansi": True, "verb": "normal"}
+
+
+def style_value(v):
+    """symbolic value of a cell / rule style -> formatter Style"""
+    from clikit.api.formatter import Style
+
+    if v == "":
+        return None
+    return Style().bold() if v == "bold" else Style().underlined()
+
+
+def style_name(st):
+    if st is None:
+        return ""
+    return "bold" if st.is_bold() else "#"
 NOIO = {"utf8": True, "ansi": False, "verb": "normal"}
 KINDS = ["borderless", "compact", "ascii", "solid"]
 COMPONENTS = ["table", "para", "labeled", "namever", "empty", "apphelp", "cmdhelp", "trace", "trace2"]
@@ -86,7 +106,7 @@ class Driver(object):
         t = Table(style)
         t.set_header_row(["h1", "h2"])
         t.add_rows([["a", "bb"], ["ccc", "d"]])
-        io = self.io(NOIO, 40)
+        io = self.io(ANSI_IO, 40)  # ANSI: cell and rule styles are part of what a table shows
         try:
             t.render(io)
             return io.fetch_output()
@@ -95,7 +115,15 @@ class Driver(object):
 
     def fields(self, style):
         b = style.border_style
-        return {"own": {f: getattr(style, f) for f in OWN}, "border": {f: GLYPH.get(getattr(b, f), getattr(b, f)) for f in BORDER}}
+
+        def val(o, f):
+            v = getattr(o, f)
+            return style_name(v) if f in STYLED else GLYPH.get(v, v)
+
+        own = {f: val(style, f) for f in OWN}
+        own["aligns"] = list(style.column_alignments)
+        own["dflt"] = style.default_column_alignment
+        return {"own": own, "border": {f: val(b, f) for f in BORDER}}
 
     def app(self):
         if self._app is None:
@@ -155,14 +183,23 @@ class Driver(object):
 
         ev = {"op": op["op"], "kind": op.get("kind", ""), "s": op.get("s", 0), "field": op.get("field", ""),
               "value": op.get("value", ""), "comp": op.get("comp", ""), "inst": op.get("inst", 0), "io": op.get("io", NOIO),
-              "ids": [], "fields": [], "id": 0, "ref": 0}
+              "col": op.get("col", 0), "a": op.get("a", 0), "seq": op.get("seq", []), "ids": [], "fields": [], "id": 0, "ref": 0}
         k = op["op"]
         if k == "make":
             self.styles.append(getattr(TableStyle, op["kind"])())
             ev["s"] = len(self.styles)
         elif k == "custom":
             st = self.styles[op["s"] - 1]
-            setattr(st if op["field"] in OWN else st.border_style, op["field"], op["value"])
+            v = style_value(op["value"]) if op["field"] in STYLED else op["value"]
+            setattr(st if op["field"] in OWN else st.border_style, op["field"], v)
+        elif k == "align":
+            st = self.styles[op["s"] - 1]
+            if op["field"] == "set_column_alignment":
+                st.set_column_alignment(op["col"], op["a"])
+            elif op["field"] == "column_alignments":
+                st.column_alignments = list(op["seq"])
+            else:
+                st.default_column_alignment = op["a"]
         elif k == "render":
             io = self.io(op["io"])
             try:
@@ -173,7 +210,7 @@ class Driver(object):
             ev["id"] = self.intern("R" + text)
             # what a fresh process shows for this component on this I/O (absent: no reference, compared with itself)
             ev["ref"] = self.intern("R" + self.refs.get(ref_key(op["comp"], op["io"]), text))
-        if k in ("make", "custom"):
+        if k in ("make", "custom", "align"):
             ev["ids"] = [self.intern("T" + self.table_text(st)) for st in self.styles]
             ev["fields"] = [self.fields(st) for st in self.styles]
         return ev
@@ -240,10 +277,19 @@ def random_ops(rng, n):
         if r < 0.25 and nstyles < 6 or (nstyles == 0 and r < 0.5):
             ops.append({"op": "make", "kind": rng.choice(KINDS)})
             nstyles += 1
-        elif r < 0.5 and nstyles:
+        elif r < 0.4 and nstyles:
             f = rng.choice(OWN + BORDER)
-            v = rng.choice(["[{}]", "{}", " {} "]) if f == "cell_format" else rng.choice(["#", "", "~", " ", "="])
+            if f in ("cell_format", "header_cell_format"):
+                v = rng.choice(["[{}]", "{}", " {} "])
+            elif f in STYLED:
+                v = rng.choice(["bold", "#", ""])
+            else:
+                v = rng.choice(["#", "", "~", " ", "="])
             ops.append({"op": "custom", "s": rng.randint(1, nstyles), "field": f, "value": v})
+        elif r < 0.55 and nstyles:
+            how = rng.choice(ALIGN_OPS + ["set_column_alignment"])
+            ops.append({"op": "align", "s": rng.randint(1, nstyles), "field": how, "col": rng.randint(0, 1), "a": rng.randint(0, 2),
+                        "seq": [rng.randint(0, 2) for _ in range(rng.randint(0, 2))] if how == "column_alignments" else []})
         else:
             c = rng.choice(COMPONENTS + ["trace", "trace", "table"])
             ops.append({"op": "render", "comp": c, "inst": rng.choice([1, 1, 2]), "io": rng.choice(ios)})
@@ -258,7 +304,8 @@ def nontrivial(ops):
 
 
 def _style_ops(beh):
-    return [{"op": e["op"], "kind": e["kind"], "s": e["s"], "field": e["field"], "value": e["value"]} for e in beh]
+    return [{"op": e["op"], "kind": e["kind"], "s": e["s"], "field": e["field"], "value": e["value"], "col": e["col"], "a": e["a"],
+             "seq": e["seq"]} for e in beh]
 
 
 def _render_ops(beh):
@@ -276,7 +323,9 @@ def run_styles(ctx):
         "component rendered more than once"
     )
     ctx.assumptions += [
-        "styles: customisation = assigning padding_char / cell_format of a TableStyle or line_ht/line_hc/line_vc/crossing_c of its border_style",
+        "styles: customisation = every in-place change TableStyle / BorderStyle offer: assigning padding_char, cell_format, "
+        "header_cell_format, cell_style, header_cell_style, default_column_alignment, column_alignments of a TableStyle, calling "
+        "set_column_alignment(col, a) (columns 0..1), assigning any of the 15 characters or the style of its border_style",
         "styles: 'component' = Table, Paragraph, LabeledParagraph, EmptyLine, NameVersion, ApplicationHelp, CommandHelp, ExceptionTrace "
         "(BlockLayout, which empties itself when rendered, is a layout helper and not included)",
         "styles: every behaviour starts from a fresh process (class-level caches are emptied by the driver between behaviours)",
@@ -300,35 +349,39 @@ def run_styles(ctx):
         if expect is not None and any(e["fields"] != x["eff"] for e, x in zip(evs, expect)):
             notrep += 1
 
-    r = ctx.model(SPEC, "MC_Styles", "MC_Styles_styles_%s.cfg" % ctx.tier, name="styles-all-sequences", workers=8)
-    recs = T.emitted(r)
-    if len(recs) < 300:
-        raise T.MachineryError("MC_Styles styles family emitted only %d behaviours" % len(recs))
-    for b in recs:
-        add(_style_ops(b), "tlc-styles", b)
-    r = ctx.model(SPEC, "MC_Styles", "MC_Styles_styles_sim.cfg", name="styles-simulate", simulate="num=%d" % (10 if quick else 150),
-                  depth=8, workers=1, seed=ctx.seed % 100000)
-    for b in T.emitted(r):
-        add(_style_ops(b), "tlc-styles-sim", b)
+    # depth 3 with every attribute in the menu; thorough adds depth 4 with a reduced menu
+    for tier in (["quick"] if quick else ["quick", "thorough"]):
+        r = ctx.model(SPEC, "MC_Styles", "MC_Styles_styles_%s.cfg" % tier, name="styles-all-sequences-" + tier, workers=8)
+        recs = T.emitted(r)
+        if len(recs) < 300:
+            raise T.MachineryError("MC_Styles styles family emitted only %d behaviours" % len(recs))
+        for b in recs:
+            add(_style_ops(b), "tlc-styles", b)
+    if not quick:  # longer behaviours by simulation (the quick tier relies on the random mixed sequences below)
+        r = ctx.model(SPEC, "MC_Styles", "MC_Styles_styles_sim.cfg", name="styles-simulate", simulate="num=60", depth=8, workers=1,
+                      seed=ctx.seed % 100000)
+        for b in T.emitted(r):
+            add(_style_ops(b), "tlc-styles-sim", b)
     nstyle = len(traces)
     r = ctx.model(SPEC, "MC_Styles", "MC_Styles_renders_quick.cfg", name="renders-all-sequences", workers=8)
     recs = T.emitted(r)
     if len(recs) < 1000:
         raise T.MachineryError("MC_Styles renders family emitted only %d behaviours" % len(recs))
-    if quick:  # every fourth pair, chosen by the seed: the full set is replayed in the thorough tier
-        recs = recs[ctx.seed % 4 :: 4]
+    if quick:  # every sixth pair, chosen by the seed: the full set is replayed in the thorough tier
+        recs = recs[ctx.seed % 6 :: 6]
     for b in recs:
         add(_render_ops(b), "tlc-renders")
-    r = ctx.model(SPEC, "MC_Styles", "MC_Styles_renders_sim.cfg", name="renders-simulate", simulate="num=%d" % (10 if quick else 150),
-                  depth=7, workers=1, seed=ctx.seed % 100000)
-    for b in T.emitted(r):
-        add(_render_ops(b), "tlc-renders-sim")
+    if not quick:
+        r = ctx.model(SPEC, "MC_Styles", "MC_Styles_renders_sim.cfg", name="renders-simulate", simulate="num=150", depth=7, workers=1,
+                      seed=ctx.seed % 100000)
+        for b in T.emitted(r):
+            add(_render_ops(b), "tlc-renders-sim")
     ctx.extra["styles_tlc_behaviours_replayed"] = len(traces)
     ctx.extra["styles_tlc_style_behaviours_with_other_attribute_values"] = notrep
     ctx.sample({"tlc_style_behaviour": cases[nstyle // 2]["ops"]})
     ctx.sample({"tlc_render_behaviour": cases[-1]["ops"]})
     # ---- code -> spec: longer seeded random mixes
-    for _ in range(60 if quick else 1500):
+    for _ in range(100 if quick else 1500):
         add(random_ops(ctx.rng, ctx.rng.randint(4, 40)), "random")
     for part_t, part_c in zip(chunks(traces, 5000), chunks(cases, 5000)):
         ctx.validate(SPEC, "StylesTrace", "StylesTrace.cfg", part_t, cases=part_c, name="styles-recorded-sequences")
